@@ -156,20 +156,38 @@ def rule_total(run):
         elif _must_assign(lp[0].body, 'mapping[%s.name]' % l): run.ok(key, where=lm.where(lp[0]))
         else: run.violated(key, 'a path does not assign mapping[%s.name]' % l, where=lm.where(lp[0]))
         # index offset: distances over self.layerlist[1:]  <->  self.layerlist[1 + argmin]
-        dist = [n for n in ast.walk(lp[0]) if isinstance(n, ast.Assign) and norm(n.targets[0]) == 'laydist']
-        clo = [n for n in ast.walk(lp[0]) if isinstance(n, ast.Assign) and norm(n.targets[0]) == 'closest']
         k2 = 'mulgrid.layer_mapping :: nearest index offset matches the searched slice'
-        if dist and clo:
-            comps = [c for c in ast.walk(dist[0].value) if isinstance(c, ast.ListComp)]
-            sl = norm(comps[0].generators[0].iter) if comps else None
-            r = compare(clo[0].value, 'self.layerlist[1 + np.argmin(laydist)]')
-            if sl == 'self.layerlist[1:]' and r == 'equal': run.ok(k2, where=lm.where(clo[0]))
-            elif sl == 'self.layerlist[1:]' and r == 'different':
-                run.violated(k2, 'distances are computed over self.layerlist[1:] but the layer is taken as `%s`' % norm(clo[0].value), where=lm.where(clo[0]))
-            elif sl is not None and sl != 'self.layerlist[1:]' and r == 'equal':
-                run.violated(k2, 'distances are computed over %s but indexed with offset 1' % sl, where=lm.where(dist[0]))
-            else: run.unknown(k2, 'shape not recognised', where=lm.where(lp[0]))
-        else: run.unknown(k2, 'laydist/closest not found', where=lm.where(lp[0]))
+        # self.layerlist[<off> + argmin(D)] with D built over self.layerlist[<lo>:]  (roles, not names)
+        picks = []
+        for x in ast.walk(lp[0]):
+            if isinstance(x, ast.Subscript) and norm(x.value) == 'self.layerlist' and not isinstance(x.slice, ast.Slice):
+                am = [c for c in ast.walk(x.slice) if isinstance(c, ast.Call) and call_name(c) == 'argmin']
+                if len(am) == 1 and am[0].args: picks.append((x, am[0]))
+        if len(picks) != 1: run.unknown(k2, 'selection self.layerlist[... argmin(...)] not found exactly once', where=lm.where(lp[0]))
+        else:
+            x, am = picks[0]
+            D = am.args[0]
+            if isinstance(D, ast.Name):
+                dd = [n.value for n in ast.walk(lp[0]) if isinstance(n, ast.Assign) and norm(n.targets[0]) == D.id]
+                D = dd[0] if len(dd) == 1 else D
+            comps = [c for c in ast.walk(D) if isinstance(c, ast.ListComp)] if isinstance(D, ast.AST) else []
+            it = comps[0].generators[0].iter if comps else None
+            lo = None
+            if isinstance(it, ast.Subscript) and norm(it.value) == 'self.layerlist' and isinstance(it.slice, ast.Slice) and it.slice.upper is None and it.slice.step is None:
+                lo = 0 if it.slice.lower is None else (it.slice.lower.value if isinstance(it.slice.lower, ast.Constant) else None)
+            elif it is not None and norm(it) == 'self.layerlist': lo = 0
+            # offset: the slice index minus the argmin call
+            off = None
+            sl_ = x.slice
+            if sl_ is am: off = 0
+            elif isinstance(sl_, ast.BinOp) and isinstance(sl_.op, ast.Add):
+                for a_, b_ in ((sl_.left, sl_.right), (sl_.right, sl_.left)):
+                    if b_ is am and isinstance(a_, ast.Constant) and isinstance(a_.value, int): off = a_.value
+            if lo is None or off is None: run.unknown(k2, 'slice `%s` / index `%s` not recognised' % (norm(it) if it is not None else None, norm(sl_)), where=lm.where(x))
+            elif lo == off: run.ok(k2, {'searched': norm(it), 'index': norm(sl_)}, where=lm.where(x))
+            else:
+                run.violated(k2, 'distances are computed over `%s` (starting at layer %d) but the nearest layer is taken as `%s` (offset %d): every target '
+                             'layer is mapped to the neighbour of its nearest source layer' % (norm(it), lo, norm(x), off), where=lm.where(x))
 
 
 def rule_atmkey(run):
